@@ -327,6 +327,9 @@ def _decompose_qr(term_row, term_col, non_red, in_ops_list, factor, primary_ops,
 
     # use absolute tolerance for q since it's normalized
     atol = 1e-10
+    if gamma.shape[1] == 1:
+        # q carries the factors themselves in this case
+        atol *= np.max(np.abs(q))
     for i, j in zip(*np.where(np.abs(q[:, :rank]) > atol)):
         symbol = term_row[i]
         qn = _compute_qn(in_ops_list, symbol, primary_ops, k)
